@@ -181,6 +181,54 @@ def run(tier, replay=None):
                                   {**case, "allele": x, "pi*K_forward": fa, "pi*K_backward": fb}, "C02/mh/db")
                     break
 
+    # ---------------- the same vectors with the sampler's likelihood cache in use (shared across states, high ploidy / many haplotypes)
+    from numba import types
+    from numba.typed import Dict as NDict
+    n_hi = {"warm": 1, "quick": 4, "thorough": 30}[tier]
+    for it in range(n_hi):
+        ploidy, n_h = r.choice([(10, 3), (9, 3), (12, 2), (6, 4)])
+        nb = 3
+        seen, haps = set(), []
+        for _ in range(60):
+            h = tuple(r.randrange(2) for _ in range(nb))
+            if h not in seen:
+                seen.add(h); haps.append(list(h))
+            if len(haps) == n_h:
+                break
+        harr = np.array(haps, dtype=np.int8); n = len(haps)
+        reads, counts = G.gen_reads(r, [2] * nb, 5, haps=haps, gap=0.1, style="encoded")
+        F = r.choice([0.0, 0.1, 0.5]); kind, freqs = gen_freqs(r, n)
+        allowed = [a for a in range(n) if freqs is None or freqs[a] > 0]
+        cache = NDict.empty(types.int64, types.float64); cache[-1] = np.nan
+        states = [[r.choice(allowed) for _ in range(ploidy)] for _ in range(12)]
+        lines, meta = [], []
+        toks = call_tokens(reads, counts, haps, F, freqs)
+        for st in states:
+            for k in range(0, ploidy, 3):
+                for op in ("call.gibbs", "call.mh"):
+                    lines.append(" ".join([op] + toks + [str(k)] + [str(a) for a in st])); meta.append((st, k, op))
+        ans = drv.ask(lines)
+        for (st, k, op), a, line in zip(meta, ans, lines):
+            model = [float(C.parse_rat(x)) for x in a.split()]
+            fn = mcmc.gibbs_options if op == "call.gibbs" else mcmc.mh_options
+            g = np.array(st, dtype=np.int64)
+            llks = np.full(n, np.nan); lpriors = np.full(n, np.nan); probs = np.full(n, np.nan)
+            fn(g, k, harr, reads, counts, F, llks, lpriors, probs, frequencies=freqs, llk_cache=cache)
+            chk.count(op + ":cached")
+            chk.case(line, True)
+            if n == 1 and op == "call.mh":
+                continue
+            if any(not C.close(x, y, rel=1e-9, abs_=1e-12) for x, y in zip(probs.tolist(), model)):
+                chk.disagreement(f"{op} probabilities with the likelihood cache in use != model",
+                                 {"haplotypes": haps, "alleles": st, "position": k, "inbreeding": F, "impl": probs.tolist(), "model": model})
+                # the property's own oracle: the cached vector must equal the uncached one (which is checked against the exact conditional above)
+                probs2 = np.full(n, np.nan)
+                fn(np.array(st, dtype=np.int64), k, harr, reads, counts, F, np.full(n, np.nan), np.full(n, np.nan), probs2, frequencies=freqs, llk_cache=None)
+                if any(not C.close(x, y, rel=1e-9, abs_=1e-12) for x, y in zip(probs.tolist(), probs2.tolist())):
+                    chk.violation("the move distribution of the call sampler changes when its likelihood cache is in use",
+                                  {"haplotypes": haps, "alleles": st, "position": k, "with_cache": probs.tolist(), "without": probs2.tolist()},
+                                  "C02/options/cache-dependence")
+
     # ---------------- compound_step: result sorted, returned llk = llk of the final genotype
     from mchap.calling.likelihood import log_likelihood_alleles
     n3 = {"warm": 2, "quick": 60, "thorough": 600}[tier]
